@@ -81,6 +81,11 @@ _BY = {"type": "object", "properties": {"y": {"type": "boolean"}, "v": STR}, "re
 GROUP_FRAGS.update({"oneof3_sxy": {"oneOf": [STR, _BX, _BY]}, "oneof3_xsy": {"oneOf": [_BX, STR, _BY]}, "oneof3_xys": {"oneOf": [_BX, _BY, STR]}})
 ONEOF3_WITH = ["oneof3_sxy", "oneof3_xsy", "oneof3_xys", "a_req", "ref_base", "extra_req", "obj"]
 GROUP_WITH = ["ref_named", "ref_aged", "grp_a_b", "grp_extra_c", "a_req", "b_req", "ref_base", "ab_closed", "extra_req"]
+# integer formats of equal / different width and signedness (the intersection of uint8 and int8 is 0..=127 in either order)
+INTFMT_FRAGS = {"u8": {"type": "integer", "format": "uint8", "minimum": 0}, "i8": {"type": "integer", "format": "int8"}, "u16": {"type": "integer", "format": "uint16", "minimum": 0}, "i16": {"type": "integer", "format": "int16"},
+                "u32": {"type": "integer", "format": "uint32", "minimum": 0}, "i32": {"type": "integer", "format": "int32"}, "i64": {"type": "integer", "format": "int64"},
+                "int_0_100": {"type": "integer", "minimum": 0, "maximum": 100}}
+INTFMT_GROUP = ["u8", "i8", "u16", "i16", "u32", "i32", "i64", "int_0_100"]
 FMT_GROUP = ["fmt_ip", "fmt_ipv4", "fmt_ipv6", "fmt_uuid", "fmt_date", "fmt_datetime", "fmt_unknown", "fmt_only_ip", "str", "str_enum_ab"]
 QUICK = ["a_opt", "a_req", "b_req", "ab_closed", "ref_base", "ref_closed", "extra_req", "b_enum_xy", "b_enum_yz", "str_enum_ab", "enum_bc"]
 TRIPLE = ["a_opt", "a_req", "a_str", "b_req", "ab_closed", "ref_base", "extra_req", "b_enum_xy", "b_enum_yz", "ap_str", "oneof_pq", "req_a_only"]
@@ -121,6 +126,8 @@ def cases(tier, seed):
     combos = list(itertools.permutations(names, 2))
     FRAGS.update(FMT_FRAGS)
     combos += [c for c in itertools.permutations(FMT_GROUP, 2) if c not in set(combos)]
+    FRAGS.update(INTFMT_FRAGS)
+    combos += [c for c in itertools.permutations(INTFMT_GROUP, 2) if c not in set(combos)]
     FRAGS.update(GROUP_FRAGS)
     combos += [c for c in itertools.permutations(GROUP_WITH, 2) if c not in set(combos)]
     combos += [c for c in itertools.permutations(ONEOF3_WITH, 2) if c not in set(combos) and any(n.startswith("oneof3") for n in c) and not all(n.startswith("oneof3") for n in c)]
